@@ -97,6 +97,7 @@ def mc_cfg(scn, family, invariants=("EmitInv",), extra_constants=(), sim=False):
         "  Batches <- MC_Batches",
         "  Configs <- MC_Configs",
         "  MaxResp = %d" % scn["max_resp"],
+        "  WDen = %d" % (scn.get("wden") or 1),
         "  Weighted = %s" % ("TRUE" if scn["weighted"] else "FALSE"),
         "  ValidCounts = %s" % ("TRUE" if scn.get("valid_counts") else "FALSE"),
         "  SimMode = %s" % ("TRUE" if sim else "FALSE"),
